@@ -426,6 +426,12 @@ func TestC14Histories(t *testing.T) {
 		pool = append(pool,
 			fmt.Sprintf("let %s = %d; T | where a > %s | take 3", fresh, rapid.IntRange(1, 9).Draw(rt, "freshval"), fresh),
 			fmt.Sprintf("T | where %s > 3 | project %s, b | take lim", fresh, fresh))
+		if rapid.Bool().Draw(rt, "deeppair") {
+			// two deeply nested sources in every other history: several goroutines
+			// are inside deep expressions at the same time
+			pool = append(pool, "T | where "+strings.Repeat("tolower(", 400)+"b"+strings.Repeat(")", 400)+" == 'x' | count",
+				"T | extend d = "+strings.Repeat("(1 + ", 380)+"a"+strings.Repeat(")", 380)+" | take 2")
+		}
 		for i, n := 0, rapid.IntRange(2, 6).Draw(rt, "npool"); i < n; i++ {
 			switch rapid.IntRange(0, 15).Draw(rt, "srckind") {
 			case 9:
